@@ -1,4 +1,4 @@
-import JanetModel.Wait.Bodies
+import JanetModel.Wait.Epoch
 import JanetModel.Wait.Rounding
 import JanetModel.Gen.Wait
 /-
@@ -284,6 +284,112 @@ theorem stale_reader_resumed_by_close_when_unchecked :
   decide
 
 example : ∀ e ∈ (run Cfg.full init witnessClose).log, e.fiber = 1 → e.task.src = .cancel := by decide
+
+/-! ### "Current wait" in the property's own terms: epochs (Wait/Epoch.lean) -/
+
+/-- ★ Every task that is executed for a fiber stems from a registration (pending channel entry, sleep / timeout timer,
+process-wait record, stream listener) or request (cancel, spawn, deadline) that was made in the fiber's CURRENT epoch — after the
+previous resume of that fiber — for all step sequences.  `epoch` counts the resumes of the fiber (ghost); each registration stores the
+epoch of its fiber at its creation (`registration_records_generation`), each task inherits it (`regEpoch`).  Hence nothing a fiber
+registered in a wait it has left — cancelled, timed out, satisfied through another select clause, or aborted by a schedule the fiber
+issued on itself while running — ever resumes it again or supplies the value of a later wait.  Needs the generation bump at resume
+(`resumeBumps`); without it `self_scheduled_wait_stays_live_without_resume_bump` is a counterexample. -/
+theorem resumed_only_by_registration_of_current_wait (cfg : Cfg) (hc : cfg.allChecked = true) (ops : List Op) :
+    ∀ e ∈ (run cfg init ops).log, e.task.regEpoch = e.epochAtRun :=
+  fun e he => (run_E cfg hc ops init_EInv).lg e he
+
+/-- … and the records behind it: in every reachable world, a pending entry / timer / process-wait record whose generation is still
+the fiber's current one was made in the fiber's current epoch, and so was any listener that is still attached. -/
+theorem live_registration_is_of_current_epoch (cfg : Cfg) (hc : cfg.allChecked = true) (ops : List Op) :
+    let w := run cfg init ops
+    (∀ c, ∀ p ∈ (w.chans c).rp ++ (w.chans c).wp, live w p.fiber p.schedId = true → p.epoch = (w.fibers p.fiber).epoch) ∧
+    (∀ tmr ∈ w.timers, live w tmr.fiber tmr.schedId = true → tmr.epoch = (w.fibers tmr.fiber).epoch) ∧
+    (∀ k f g, w.procs k = some (f, g) → live w f g = true → w.procEpoch k = (w.fibers f).epoch) ∧
+    (∀ f, (w.fibers f).listener ≠ none → (w.fibers f).listenEpoch = (w.fibers f).epoch) := by
+  intro w
+  have h := run_E cfg hc ops init_EInv
+  refine ⟨?_, ?_, ?_, h.ls⟩
+  · intro c p hp hl
+    have hl' : p.schedId = (w.fibers p.fiber).schedId := by simp [live] at hl; exact hl.symm
+    rcases List.mem_append.mp hp with hp | hp
+    · exact (h.rp c p hp).2 hl'
+    · exact (h.wp c p hp).2 hl'
+  · intro tmr hto hl
+    have hl' : tmr.schedId = (w.fibers tmr.fiber).schedId := by simp [live] at hl; exact hl.symm
+    exact (h.tm tmr hto).2 hl'
+  · intro k f g hk hl
+    have hl' : g = (w.fibers f).schedId := by simp [live] at hl; exact hl.symm
+    exact (h.pr k f g hk).2 hl'
+
+/-- ★ stream completions, in the property's terms (replaces the bare "detach discipline"): in every reachable world a fiber that has
+been resumed since it attached a listener has no listener any more (a surviving listener is of the current epoch), and readiness of a
+stream whose registered fiber has no listener changes NOTHING — no fiber, no queue entry, no stream slot: later activity on the
+abandoned stream neither resumes the fiber nor alters what it receives from its next wait. -/
+theorem abandoned_stream_activity_inert (cfg : Cfg) (hc : cfg.allChecked = true) (ops : List Op) (f s : Nat) (r : Bool) (v : Val) (e : Bool) :
+    let w := run cfg init ops
+    ((w.fibers f).listenEpoch ≠ (w.fibers f).epoch → (w.fibers f).listener = none) ∧
+    ((if r then (w.streams s).readFiber else (w.streams s).writeFiber) = some f → (w.fibers f).listener = none →
+        streamEvent cfg w s r v e = w) := by
+  intro w
+  refine ⟨?_, ?_⟩
+  · intro hne
+    by_cases hl : (w.fibers f).listener = none
+    · exact hl
+    · exact absurd ((run_E cfg hc ops init_EInv).ls f hl) hne
+  · intro hs hl
+    simp [streamEvent, hs, hl]
+
+/-- a resume detaches the listener whatever the depth of the child-fiber chain below the task (try / defer / coro / with-deadline
+bodies that stay suspended across the wait) -/
+theorem listener_detached_on_resume_any_depth (cfg : Cfg) (hc : cfg.allChecked = true) (w : World) (t : Task) (q : List Task) (d : Nat)
+    (hq : w.queue = t :: q) (hcur : t.expected = (w.fibers t.fiber).schedId) (_hd : (w.fibers t.fiber).depth = d) :
+    ((runTask cfg w).fibers t.fiber).listener = none :=
+  listener_detached_on_resume cfg hc w t q hq hcur
+
+/-- Witness (unfixed tree, found through this theorem): fiber 1 cancels ITSELF while running, then takes from channel 0 (the
+registration carries the generation of that cancel), is resumed by the cancel, and blocks taking from channel 1.  Without the bump at
+resume the entry on channel 0 is still live: the give of fiber 2 on channel 0 resumes fiber 1 in its NEXT wait. -/
+theorem self_scheduled_wait_stays_live_without_resume_bump :
+    ∃ e ∈ (run { Cfg.full with resumeBumps := false } init
+            [.spawn 1, .run, .cancel 1 (.err 5), .take 1 0 false, .run, .take 1 1 false, .give 2 0 (.kw 7) false, .run]).log,
+      e.fiber = 1 ∧ e.task.src = .chanRead 0 ∧ e.task.value = .kw 7 ∧ e.task.regEpoch ≠ e.epochAtRun := by
+  decide
+
+example : ∀ e ∈ (run Cfg.full init
+            [.spawn 1, .run, .cancel 1 (.err 5), .take 1 0 false, .run, .take 1 1 false, .give 2 0 (.kw 7) false, .run]).log,
+      e.fiber = 1 → e.task.src = .spawn ∨ e.task.src = .cancel := by decide
+
+/-- Witness: `janet_fiber_did_resume` after the child block.  Fiber 1 runs inside a child fiber (depth 1), reads from stream 0, is
+cancelled and handles that inside the child, blocks on channel 1; the listener survived the resume and a later stream event resumes
+the fiber out of its take with the stream's buffer. -/
+theorem nested_listener_survives_when_did_resume_late :
+    ∃ e ∈ (run { Cfg.full with didResumeFirst := false } init
+            [.spawn 1, .run, .childEnter 1, .asyncStart 1 0 true, .cancel 1 (.err 5), .run, .take 1 1 false,
+             .streamEvent 0 true (.buf 0) false, .run]).log,
+      e.fiber = 1 ∧ e.task.src = .stream 0 ∧ e.task.regEpoch ≠ e.epochAtRun := by
+  decide
+
+example : ∀ e ∈ (run Cfg.full init
+            [.spawn 1, .run, .childEnter 1, .asyncStart 1 0 true, .cancel 1 (.err 5), .run, .take 1 1 false,
+             .streamEvent 0 true (.buf 0) false, .run]).log,
+      e.fiber = 1 → e.task.src = .spawn ∨ e.task.src = .cancel := by decide
+
+/-- Witness: the generation test of `janet_proc_wait_cb` guarding only the normal-result branch.  Process 0 was spawned with :x;
+fiber 1 abandons its wait and blocks on channel 1; the non-zero exit then CANCELS fiber 1 in that unrelated wait. -/
+theorem abandoned_x_procwait_cancels_when_err_branch_unchecked :
+    ∃ e ∈ (run { Cfg.full with procErrCheck := false } init
+            [.procFlag 0 true, .spawn 1, .run, .procWait 1 0, .cancel 1 (.err 5), .run, .take 1 1 false, .procExit 0 7, .run]).log,
+      e.fiber = 1 ∧ e.task.src = .proc 0 ∧ e.task.value = procErrVal 7 ∧ e.task.isErr = true ∧ e.task.regEpoch ≠ e.epochAtRun := by
+  decide
+
+example : ∀ e ∈ (run Cfg.full init
+            [.procFlag 0 true, .spawn 1, .run, .procWait 1 0, .cancel 1 (.err 5), .run, .take 1 1 false, .procExit 0 7, .run]).log,
+      e.fiber = 1 → e.task.src = .spawn ∨ e.task.src = .cancel := by decide
+
+/-- non-vacuity of the epoch theorem: a live :x process wait does deliver its error, in epoch 1 -/
+example :
+    ((run Cfg.full init [.procFlag 0 true, .spawn 1, .run, .procWait 1 0, .procExit 0 7, .run]).log.map
+      (fun e => (e.fiber, e.epochAtRun, e.task.regEpoch, e.task.value))) = [(1, 1, 1, procErrVal 7), (1, 0, 0, .nil)] := by decide
 
 /-! ### Non-vacuity -/
 
